@@ -530,14 +530,15 @@ def float_tokens(rng, n):
 
 
 def timing(ck):
-    """linear-time clause: parse time per byte on 256 KiB / 512 KiB / 1 MiB inputs of seven shapes
-    (non-sanitised build); alarm only on gross super-linearity"""
+    """linear-time clause: parse time per byte on 1 / 2 / 4 MiB inputs of seven shapes (non-sanitised
+    build; sizes beyond the cache cliff so that the per-byte cost is flat for a linear parser); alarm
+    only on gross super-linearity (quadratic behaviour gives a per-byte ratio of 4)"""
     exe = ck.cc(os.path.join(ck.bdir, "h_time"), [os.path.join(vf.HARNESS, PID, "h.c")] + REPO_SRCS,
                 san=False, libs=["-lm"])
     best = {}
     worst = 0.0
     rc = 0
-    for attempt in range(4):
+    for attempt in range(6):
         rc, out, err = ck.run([exe, "--time"], timeout=600)
         for line in out.split("\n"):
             m = re.match(r"time kind=(\d+) (.*)", line)
@@ -554,15 +555,15 @@ def timing(ck):
             (n0, t0), (n2, t2) = pts[0], pts[-1]
             if t0 > 0.0005:
                 worst = max(worst, (t2 / n2) / (t0 / n0))
-        if rc != 0 or worst <= 2.5:
+        if rc != 0 or worst <= 2.0:
             break               # minima over repeated runs: scheduling noise only ever adds time
-    ck.cov["linear_time"] = {"points": rows, "worst_per_byte_ratio_1MiB_vs_256KiB": round(worst, 2)}
+    ck.cov["linear_time"] = {"points": rows, "worst_per_byte_ratio_4MiB_vs_1MiB": round(worst, 2)}
     if rc != 0 or len(rows) < 7:
         ck.report("obs", {"label": "timing", "ops": ["h --time"], "class": "timing-run",
                           "monitor": "timing run failed rc=%d %s" % (rc, vf.san_summary(err))})
-    elif worst > 3.0:
+    elif worst > 2.8:
         ck.report("obs", {"label": "timing", "ops": ["h --time"], "class": "super-linear",
-                          "monitor": "time per byte grows %.1fx from 256 KiB to 1 MiB: %r" % (worst, rows)})
+                          "monitor": "time per byte grows %.1fx from 1 MiB to 4 MiB: %r" % (worst, rows)})
 
 
 def run(ck):
